@@ -57,6 +57,7 @@ def run(ctx, vlib):
             elif len(diffs) < 20:
                 diffs.append(rec)
     known_lines, known_cases = A.known_findings("C18", vlib, impl)
+    diffs += A.STALE_KNOWN
     failing = [f for f in failing if f["case"] not in known_cases]
     samples = [dict(case=cases[i], implementation=oi[i], model=om[i]) for i in range(0, min(len(cases), 4))]
     return dict(evaluations=len(cases), distinct_nontrivial=nt, samples=samples, classes=classes, failing=failing,
